@@ -61,6 +61,7 @@ enum Act {
   BlockOn(usize),
   Using(usize),
   UsingPanic(usize),
+  DropSched(usize),
   Repoll(usize),
   Connect(usize, usize),
   Disconnect(usize),
@@ -216,6 +217,10 @@ fn parse_act(x: &Sx, c: &Counts) -> ActN {
       need(2);
       Act::Abort(parse_ref(&l[1], c.scheds, "scheduler"))
     }
+    "drop-sched" => {
+      need(2);
+      Act::DropSched(parse_ref(&l[1], c.scheds, "scheduler"))
+    }
     "sleep" => {
       need(2);
       let n = l[1].int();
@@ -363,13 +368,14 @@ fn parse_scenario(x: &Sx) -> Scenario {
 }
 
 // ---------------------------------------------------------------- objects of one run
+#[derive(Clone)]
 enum Sched {
   NewThread(schedulers::NewThreadScheduler<'static>),
   Default(schedulers::DefaultScheduler),
 }
 
 struct Objects {
-  scheds: Vec<Sched>,
+  scheds: Vec<Mutex<Option<Sched>>>,   // (a handle can be dropped by the scenario: `(drop-sched i)`)
   observers: Vec<Observer<'static, V>>,
   tovecs: Vec<Observable<'static, V>>,
   penv: PipeEnv, // subjects, conns, pipes
@@ -403,7 +409,7 @@ fn create_objects(sc: &Scenario, rec: &Rec, with_scheds: bool) -> Objects {
     match o {
       ObjSpec::Sched { default } => {
         if with_scheds {
-          scheds.push(if *default { Sched::Default(schedulers::default_scheduler()()) } else { Sched::NewThread(schedulers::new_thread_scheduler()()) });
+          scheds.push(Mutex::new(Some(if *default { Sched::Default(schedulers::default_scheduler()()) } else { Sched::NewThread(schedulers::new_thread_scheduler()()) })));
         }
       }
       ObjSpec::Subject { kind, init } => subjects.push(match kind.as_str() {
@@ -654,15 +660,26 @@ fn exec(cx: &Cx, a: &ActN) {
         exec_all(&cx2, &acts2);
         cx2.rec.ev("task-end", vec![t2.clone()]);
       };
-      match &o.scheds[*s] {
-        Sched::NewThread(s) => s.post(task),
-        Sched::Default(s) => s.post(task),
+      let sch = o.scheds[*s].lock().unwrap().clone();
+      match sch {
+        Some(Sched::NewThread(s)) => s.post(task),
+        Some(Sched::Default(s)) => s.post(task),
+        None => {}
       }
     }
-    Act::Abort(s) => match &o.scheds[*s] {
-      Sched::NewThread(s) => s.abort(),
-      Sched::Default(s) => s.abort(),
-    },
+    Act::DropSched(s) => {
+      // the scenario's own handle of the scheduler goes away (no abort): whatever has been posted must still run
+      let h = o.scheds[*s].lock().unwrap().take();
+      drop(h);
+    }
+    Act::Abort(s) => {
+      let sch = o.scheds[*s].lock().unwrap().clone();
+      match sch {
+        Some(Sched::NewThread(s)) => s.abort(),
+        Some(Sched::Default(s)) => s.abort(),
+        None => {}
+      }
+    }
     Act::Sleep(ms) => fthread::sleep(Duration::from_millis(*ms)),
     Act::Yield => rt::yield_point("scenario-yield"),
     Act::Count(h) => {
